@@ -928,6 +928,102 @@ fn copy_db_files(src: &str, dst: &str) -> std::io::Result<()> {
     Ok(())
 }
 
+#[derive(Default, Clone)]
+struct OldMetaLine {
+    dir: String,
+    what: String,
+    pre_keys: usize,
+    meta_changed: bool,
+    ln_changed_below: usize,
+    bbn_changed_below: usize,
+    ln_beyond: usize,
+    bbn_beyond: usize,
+    page0_changed: bool,
+    shrunk: bool,
+}
+
+/// pages of `post` that differ from `pre`: (below `bump`, at or beyond `bump` and not all zero, page 0 differs, post shorter)
+fn page_diff(pre: &[u8], post: &[u8], bump: usize) -> (usize, usize, bool, bool) {
+    let (mut below, mut beyond) = (0, 0);
+    let np = post.len() / 4096;
+    for pn in 0..np {
+        let b = &post[pn * 4096..(pn + 1) * 4096];
+        let a = if (pn + 1) * 4096 <= pre.len() { Some(&pre[pn * 4096..(pn + 1) * 4096]) } else { None };
+        if a == Some(b) {
+            continue;
+        }
+        if pn < bump {
+            below += 1;
+        } else if b.iter().any(|x| *x != 0) {
+            beyond += 1;
+        }
+    }
+    let p0 = pre.len() >= 4096 && post.len() >= 4096 && pre[..4096] != post[..4096];
+    (below, beyond, p0, post.len() < pre.len())
+}
+
+/// C17 / C04 (content level): the directory `<snap>/om` = the `ln` and `bbn` files as they are AFTER the operation
+/// with the `meta` page as it was BEFORE it, and the committed map as it was before it (`expected.txt`).  The Lean
+/// driver decodes it (`placement-oldmeta <dir>`): it must pass the beatree part of `wfImage` and abstract to the
+/// PRE state — i.e. no page the previous state reads was touched by the operation.
+fn old_meta_dir(live: &str, snap: &str, pre: &crate::db::Map) -> std::io::Result<OldMetaLine> {
+    use std::io::Write;
+    let om = format!("{snap}/om");
+    std::fs::create_dir_all(&om)?;
+    std::fs::copy(format!("{snap}/meta"), format!("{om}/meta"))?;
+    let meta_pre = std::fs::read(format!("{snap}/meta"))?;
+    let meta_post = std::fs::read(format!("{live}/meta"))?;
+    let u32at = |b: &[u8], o: usize| -> usize { if b.len() >= o + 4 { u32::from_le_bytes([b[o], b[o + 1], b[o + 2], b[o + 3]]) as usize } else { 0 } };
+    let (ln_bump, bbn_bump) = (u32at(&meta_pre, 12), u32at(&meta_pre, 20));
+    // the files are pre-allocated (tens of MiB of zero pages): the copy keeps every page up to the last page that is
+    // not all zero, and at least the pages below the old allocation frontier (the decoder reads nothing beyond it)
+    let trimmed = |name: &str, bump: usize| -> std::io::Result<(Vec<u8>, Vec<u8>, bool)> {
+        use std::io::Read;
+        use std::os::unix::fs::FileExt;
+        let mut post = std::fs::read(format!("{live}/{name}"))?;
+        let full = post.len();
+        let mut np = post.len() / 4096;
+        while np > bump && post[(np - 1) * 4096..np * 4096].iter().all(|b| *b == 0) {
+            np -= 1;
+        }
+        post.truncate((np * 4096).min(full));
+        let f = std::fs::File::create(format!("{om}/{name}"))?;
+        f.set_len(post.len() as u64)?;
+        for pn in 0..post.len() / 4096 {
+            let pg = &post[pn * 4096..(pn + 1) * 4096];
+            if pg.iter().any(|b| *b != 0) {
+                f.write_all_at(pg, (pn * 4096) as u64)?;
+            }
+        }
+        let pre_len = std::fs::metadata(format!("{snap}/{name}"))?.len() as usize;
+        let mut pre = vec![];
+        std::fs::File::open(format!("{snap}/{name}"))?.take(post.len() as u64).read_to_end(&mut pre)?;
+        Ok((pre, post, full < pre_len))
+    };
+    let (ln_pre, ln_post, ln_shrunk) = trimmed("ln", ln_bump)?;
+    let (bbn_pre, bbn_post, bbn_shrunk) = trimmed("bbn", bbn_bump)?;
+    let mut f = std::io::BufWriter::new(std::fs::File::create(format!("{om}/expected.txt"))?);
+    for (k, v) in pre.iter() {
+        writeln!(f, "{} {} {}", crate::util::hex(k), crate::util::hex(&crate::db::vhash(v)), v.len())?;
+    }
+    f.flush()?;
+    let (lb, ly, l0, _) = page_diff(&ln_pre, &ln_post, ln_bump);
+    let (bb, by, b0, _) = page_diff(&bbn_pre, &bbn_post, bbn_bump);
+    let (ls, bs) = (ln_shrunk, bbn_shrunk);
+    Ok(OldMetaLine {
+        dir: om,
+        what: String::new(),
+        pre_keys: pre.len(),
+        meta_changed: meta_pre != meta_post,
+        ln_changed_below: lb,
+        bbn_changed_below: bb,
+        ln_beyond: ly,
+        bbn_beyond: by,
+        page0_changed: l0 || b0,
+        shrunk: ls || bs,
+    })
+}
+
 /// C17: for every state-changing operation of generated histories, snapshot the directory BEFORE the
 /// operation, record the ordered I/O events the operation issues, and hand both to the Lean placement
 /// monitor (`placement <snapshot>`), which decodes the snapshot independently and checks that nothing
@@ -940,6 +1036,8 @@ pub fn placement(args: &[String], out: &mut Sink) {
     let scale: usize = arg(args, "--scale").and_then(|s| s.parse().ok()).unwrap_or(1);
     let outdir = arg(args, "--out").unwrap_or("work/out".into());
     let big = args.iter().any(|a| a == "--big");
+    // `--oldmeta`: emit the old-meta monitor lines (`placement-oldmeta <dir>`) INSTEAD of the placement / order lines
+    let oldmeta = args.iter().any(|a| a == "--oldmeta");
     let _ = std::fs::create_dir_all(&outdir);
     let root = std::fs::canonicalize(&outdir).map(|p| p.to_string_lossy().to_string()).unwrap_or(outdir.clone());
     let _ = std::fs::remove_dir_all(format!("{root}/psnap"));
@@ -951,8 +1049,11 @@ pub fn placement(args: &[String], out: &mut Sink) {
         iohook::install(Mode::Observe, Loss::None, None);
         let mut scratch = Sink::new();
         let lines: std::sync::Arc<std::sync::Mutex<Vec<(String, String, usize)>>> = Default::default();
+        let om_lines: std::sync::Arc<std::sync::Mutex<Vec<OldMetaLine>>> = Default::default();
         {
             let lines = lines.clone();
+            let om_lines = om_lines.clone();
+            let mut pre_map: Option<crate::db::Map> = None;
             let dir = dir.clone();
             let root = root.clone();
             let mut start_idx = 0u64;
@@ -966,7 +1067,14 @@ pub fn placement(args: &[String], out: &mut Sink) {
                     if copy_db_files(&dir, &snap).is_err() {
                         snap.clear();
                     }
+                    pre_map = if oldmeta { Some(op.committed.clone()) } else { None };
                 } else if !snap.is_empty() {
+                    if let Some(pm) = pre_map.take() {
+                        match old_meta_dir(&dir, &snap, &pm) {
+                            Ok(l) => om_lines.lock().unwrap().push(OldMetaLine { what: op.what.to_string(), ..l }),
+                            Err(e) => om_lines.lock().unwrap().push(OldMetaLine { dir: String::new(), what: format!("{}: {e}", op.what), ..Default::default() }),
+                        }
+                    }
                     let tr = iohook::trace_lines_since(start_idx);
                     let nev = tr.iter().filter(|l| l.contains(" Begin ")).count();
                     let _ = std::fs::write(format!("{snap}/trace.txt"), tr.join("\n") + "\n");
@@ -998,6 +1106,41 @@ pub fn placement(args: &[String], out: &mut Sink) {
             out.fail(format!("(placement history) {f}"));
         }
         out.mark_case(format!("case {case} placement focus={focus} cfg: {}", cfg.describe()));
+        if oldmeta {
+            for l in om_lines.lock().unwrap().iter() {
+                if l.dir.is_empty() {
+                    out.fail(format!("C17 old-meta monitor: the old-meta directory could not be built ({})", l.what));
+                    continue;
+                }
+                out.line(format!("placement-oldmeta {}", l.dir), "skip".into());
+                out.count("oldmeta_checks");
+                out.count(&format!("oldmeta_ops_{}", l.what));
+                out.add("oldmeta_pre_keys", l.pre_keys as u64);
+                out.add("oldmeta_ln_pages_changed_below_old_bump", l.ln_changed_below as u64);
+                out.add("oldmeta_bbn_pages_changed_below_old_bump", l.bbn_changed_below as u64);
+                out.add("oldmeta_ln_pages_written_beyond_old_bump", l.ln_beyond as u64);
+                out.add("oldmeta_bbn_pages_written_beyond_old_bump", l.bbn_beyond as u64);
+                if l.meta_changed {
+                    out.count("oldmeta_switch_overs");
+                }
+                if l.ln_changed_below + l.bbn_changed_below > 0 {
+                    out.count("oldmeta_ops_reusing_old_pages");
+                }
+                // harness-side oracle, independent of the Lean decoder: the reserved page 0 of ln / bbn never changes and
+                // the files never shrink
+                if l.page0_changed || l.shrunk {
+                    out.fail(format!("C17 old-meta oracle: {} page0_changed={} shrunk={} ({})", l.dir, l.page0_changed, l.shrunk, l.what));
+                }
+                if l.meta_changed && (l.ln_changed_below + l.bbn_changed_below + l.ln_beyond + l.bbn_beyond > 0) {
+                    out.nontrivial(&l.dir);
+                }
+                if out.samples.len() < 3 {
+                    out.samples.push(format!("placement-oldmeta {} [{}, pre_keys={}, changed below old bump ln={} bbn={}, beyond ln={} bbn={}]",
+                        l.dir, l.what, l.pre_keys, l.ln_changed_below, l.bbn_changed_below, l.ln_beyond, l.bbn_beyond));
+                }
+            }
+            continue;
+        }
         for (snap, what, nev) in lines.lock().unwrap().iter() {
             out.line(format!("placement {snap}"), "skip".into());
             out.count(&format!("ops_{what}"));
